@@ -404,7 +404,7 @@ impl<C: CaseT> DynSub for Sub<C> {
         let config = Config {
             cases: mine as u32,
             failure_persistence: None,
-            max_shrink_iters: 4000,
+            max_shrink_iters: 600,
             max_global_rejects: 100_000,
             max_local_rejects: 100_000,
             source_file: None,
@@ -829,7 +829,8 @@ pub fn run_property(prop: Property, tier: Tier, seed: u64) -> i32 {
     }
     for (v, p) in &violations {
         println!("VIOLATION property={} replay={}", prop.id, p.display());
-        println!("  sub={} sig={} :: {}", v.sub, v.sig, v.msg);
+        let m: String = v.msg.chars().take(1500).collect();
+        println!("  sub={} sig={} :: {}", v.sub, v.sig, m);
     }
     println!(
         "{} {} seed={} evaluations={} distinct_nontrivial={} excluded_known={} violations={} wall={:.1}s",
